@@ -26,6 +26,7 @@ type CState struct {
 	Cat  string     `json:"cat"`
 	VPol string     `json:"vpol"`
 	PPol bool       `json:"ppol"`
+	Lvl  []int      `json:"lvl"`
 }
 
 type emptyCtxOp struct{}
@@ -124,7 +125,10 @@ func concKw(k map[string]any) any {
 	return 42
 }
 
-type condHandle struct{ c stackage.Condition }
+type condHandle struct {
+	c stackage.Condition
+	n int
+}
 
 func setCOpt(c stackage.Condition, f, m string) {
 	var arg []bool
@@ -188,6 +192,17 @@ func (condMachine) Build(st, _ json.RawMessage) Handle {
 	}
 	if a.Cat != "" {
 		h.c.SetCategory(a.Cat)
+	}
+	if len(a.Lvl) > 0 {
+		bits := 0
+		for _, b := range a.Lvl {
+			bits |= 1 << (b - 1)
+		}
+		if bits == 65535 {
+			h.c.SetLogLevel(stackage.AllLogLevels)
+		} else {
+			h.c.SetLogLevel(stackage.LogLevel(bits))
+		}
 	}
 	if a.VPol != "none" && a.VPol != "" {
 		setVPol(h.c, a.VPol)
@@ -259,6 +274,10 @@ func (condMachine) Apply(hh Handle, _ string, c Call) (ret []string) {
 		h.c.SetID(c.Str("v"))
 	case "SetCategory":
 		h.c.SetCategory(c.Str("v"))
+	case "SetLogLevel":
+		h.c.SetLogLevel(lvlArgs(c, &h.n)...)
+	case "UnsetLogLevel":
+		h.c.UnsetLogLevel(lvlArgs(c, &h.n)...)
 	case "SetValidityPolicy":
 		setVPol(h.c, c.Str("mode"))
 	case "SetPresentationPolicy":
@@ -299,6 +318,7 @@ type CObs struct {
 	Valid   string     `json:"valid"`
 	Str     string     `json:"str"`
 	Bits    []string   `json:"bits"`
+	LogLvls string     `json:"loglevels"`
 }
 
 var condFlagBits = []int{1, 4, 128, 256} // paren nspad ronly nnest
@@ -341,6 +361,7 @@ func ObserveCond(c stackage.Condition) CObs {
 		return "ok"
 	})
 	o.Str = safeS(c.String)
+	o.LogLvls = safeS(c.LogLevels)
 	o.Enc = [][]string{}
 	o.Bits = []string{}
 	if o.Init == "true" {
@@ -400,7 +421,7 @@ func cmdCondTraceGen(args []string) {
 	events := 0
 	for t := 0; t < *traces; t++ {
 		live := rng.Intn(8) != 0
-		init := CState{Live: live, Op: "none", Ex: "nil", Opts: []string{}, Enc: [][]string{}, Err: "none", VPol: "none"}
+		init := CState{Live: live, Op: "none", Ex: "nil", Opts: []string{}, Enc: [][]string{}, Err: "none", VPol: "none", Lvl: []int{}}
 		ij, _ := json.Marshal(init)
 		h := m.Build(ij, nil)
 		_ = enc.Encode(map[string]any{"ev": "reset", "st": init, "ret": []string{}})
@@ -425,8 +446,11 @@ func cmdCondTraceGen(args []string) {
 				c = Call{"op": "SetEncap", "pairs": pairs[rng.Intn(len(pairs))]}
 			case r < 93:
 				c = Call{"op": "SetID", "v": []string{"", "x", "id 2"}[rng.Intn(3)]}
-			case r < 95:
+			case r < 94:
 				c = Call{"op": "SetCategory", "v": []string{"", "c"}[rng.Intn(2)]}
+			case r < 96 && r >= 95:
+				c = Call{"op": []string{"SetLogLevel", "UnsetLogLevel"}[rng.Intn(2)], "args": []any{
+					map[string]any{"bits": []any{1 + rng.Intn(16)}, "none": false, "all": false, "form": []string{"name", "const"}[rng.Intn(2)]}}}
 			case r < 97:
 				c = Call{"op": "SetValidityPolicy", "mode": []string{"none", "ok", "bad"}[rng.Intn(3)]}
 			case r < 99:
